@@ -359,9 +359,13 @@ class Walker(object):
         extra = ''
         r = rng.random()
         if r < 0.15:
-            extra = ' %s %s %d %d' % (s_tok('will/t'), s_tok('bye'), rng.randrange(3), rng.randrange(2))
+            extra = ' %s %s %d %d' % (s_tok(rng.choice(['will/t', 'wíll/€'])), s_tok(rng.choice(['bye', 'desconexión', '', '温\U0001F600'])), rng.randrange(3), rng.randrange(2))
         elif r < 0.3:
-            extra = ' n n 0 0 %s %s' % (s_tok('user'), s_tok('päss') if rng.random() < 0.7 else 'n')
+            extra = ' n n 0 0 %s %s' % (s_tok(rng.choice(['user', 'üser'])), s_tok('päss') if rng.random() < 0.7 else 'n')
+        elif r < 0.42:
+            # every optional CONNECT field at once, multi-byte text in each: a wrong length prefix in one field shifts the ones after it
+            extra = ' %s %s %d %d %s %s' % (s_tok(rng.choice(['w', 'wíll/€'])), s_tok(rng.choice(['adiós', 'bye', 'Ж'])), rng.randrange(3), rng.randrange(2),
+                                            s_tok(rng.choice(['user', 'üser'])), s_tok('päss') if rng.random() < 0.7 else 'n')
         cid = 'cli%d' % p
         if bad:
             c = rng.randrange(6)
